@@ -13,24 +13,35 @@
 (*   mmax  1000 * max(1, max multiplier of the step) as seen in L          *)
 (* Policy: the user's row if eligible; else the diagonal row if eligible;  *)
 (* else a row of maximal magnitude.  Every multiplier obeys |l| <= 1/u.    *)
+(* A request to reuse a row order is abandoned FOR THE REST OF THE RUN at  *)
+(* the first column whose requested row is not eligible (p?gstrf_pivotL    *)
+(* stores usepr = NO in the shared options; which columns come "after" is  *)
+(* schedule dependent with several threads): an eligible requested row may *)
+(* be passed over only if the request failed at some column of this run.   *)
 (* The harness reconstructs (diag, user, choice, mmax) for every column    *)
 (* from the returned factors; TLC evaluates StepOK on each of them.        *)
 (***************************************************************************)
 EXTENDS Naturals, Integers, Sequences
 
 Bit(x, b) == (x \div b) % 2 = 1
-StepOK(s, u1000) ==
+\* the policy when no request is in force for this column
+NoRequest(diag, choice) ==
+    IF diag = 2 THEN Bit(choice, 1)
+    ELSE IF diag = 3 THEN TRUE
+    ELSE ~Bit(choice, 1)                                            \* some other row of maximal magnitude
+StepOKWith(s, u1000, abandoned) ==
   LET diag == s[1]  user == s[2]  choice == s[3] IN
   /\ diag \in 0..3 /\ user \in 0..3 /\ choice \in 0..3
-  /\ IF user = 2 THEN Bit(choice, 2)
+  /\ IF user = 2 THEN Bit(choice, 2) \/ (abandoned /\ NoRequest(diag, choice))
      ELSE IF user = 3 THEN TRUE
      ELSE /\ ~Bit(choice, 2) \/ (Bit(choice, 1) /\ diag >= 2)      \* an ineligible user row is not taken
-          /\ IF diag = 2 THEN Bit(choice, 1)
-             ELSE IF diag = 3 THEN TRUE
-             ELSE ~Bit(choice, 1)                                   \* neither: some other row of maximal magnitude
+          /\ NoRequest(diag, choice)
+StepOK(s, u1000) == StepOKWith(s, u1000, FALSE)
 \* the abstract policy is total and deterministic on decided inputs
 PolicyTotal == \A d \in 0..2 : \A us \in 0..2 :
                  \E c \in 0..3 : StepOK(<<d, us, c>>, 1000)
 ASSUME PolicyTotal
-AllStepsOK(steps, u1000) == \A k \in 1..Len(steps) : StepOK(steps[k], u1000)
+\* no request (user = 0 everywhere) or a request that failed somewhere: abandoned from then on
+Abandoned(steps) == \E k \in 1..Len(steps) : steps[k][2] # 2
+AllStepsOK(steps, u1000) == \A k \in 1..Len(steps) : StepOKWith(steps[k], u1000, Abandoned(steps))
 =============================================================================
